@@ -35,6 +35,8 @@ type Input struct {
 	// PK2 != 0 (with PK): the model value is a slice of two records with keys PK and PK2: the unit is
 	// `id IN (PK, PK2)`
 	PK2 int64 `json:"pk2,omitempty"`
+	// DelVia (with PK, without PK2): "" Delete(&T{ID: PK}) | model Model(&T{ID: PK})...Delete(&T{})
+	DelVia string `json:"del_via,omitempty"`
 }
 
 const pkAtom = 20
@@ -73,7 +75,7 @@ type Obs struct {
 var sameKinds = []string{"pluck", "scan", "rows", "batches", "updates_map", "update_column"}
 var oneKinds = []string{"first", "last", "take"}
 
-var names = []string{"a", "b", "ab", "c d", "x"}
+var names = []string{"a", "b", "ab", "c d", "x", ""}
 var nicks = []string{"n1", "n2", "a"}
 
 func genRows(r *lib.Rng) []Row {
@@ -329,6 +331,10 @@ func (e *env) run(orig Input) Obs {
 		return tx, inline
 	}
 	dtx, dinline := chainOn(t)
+	if orig.DelVia == "model" && orig.PK != 0 && orig.PK2 == 0 {
+		// the key comes from the Model value, the deleted value carries none
+		dtx, deleteValue = dtx.Model(&whr.T{ID: orig.PK}), &whr.T{}
+	}
 	fail("delete", dtx.Delete(deleteValue, dinline...).Error)
 	var remaining []int64
 	fail("remaining", t.Raw("SELECT id FROM ts ORDER BY id").Scan(&remaining).Error)
@@ -553,6 +559,9 @@ func main() {
 				if clash {
 					in.PK2 = 0
 				}
+			}
+			if in.PK2 == 0 && r.Bool() {
+				in.DelVia = "model"
 			}
 		}
 		kind := "main"
